@@ -453,12 +453,27 @@ def _run_real(op):
     raise KeyError(name)
 
 
+def _drop_kinds(x):
+    """error *wording* is not part of any property: compare exception class and, for decode errors,
+    the reported position; drop the message kinds"""
+    if isinstance(x, dict):
+        return {k: _drop_kinds(v) for k, v in x.items()}
+    if isinstance(x, list):
+        if x and x[0] == 'DecodeError' and len(x) == 4:
+            return x[:3]
+        if x and x[0] == 'LayoutError':
+            return x[:1]
+        return [_drop_kinds(v) for v in x]
+    return x
+
+
 def compare(op, real, model):
     """True if the model's answer agrees with the real one (after the
     op-specific canonicalisation); 'skip' if the model declares the input
     outside its domain."""
     if _has_unmodelled(model):
         return 'skip'
+    real, model = _drop_kinds(real), _drop_kinds(model)
     name = op['op']
     if name == 'evaluate':
         # numbers: the model returns the JSON number text; compare by value
